@@ -6,6 +6,7 @@
 import Fips204.Impl.Api
 import Fips204.Exec.Keccak
 import Fips204.Exec.Sha2
+import Fips204.Spec.MlDsa
 open Fips204 Fips204.Gen Fips204.Impl
 
 namespace Fips204.Exec
@@ -199,6 +200,35 @@ def signProbe (m : Mode) (O : Oracles) (p : ParamSet) (sk : PrivateKey) (msg ctx
   let sh := fun (l : List Int) => ",".intercalate (l.map toString)
   pure s!"kappa={kappa} redges=[{sh (edges r)}] rredges=[{sh (edges rr)}]"
 
+
+/-- the literal transcription of the standard (`Spec/*`), run directly: Table 1 by name, Algorithms 6, 7 (on `skDecode`), 8.
+    `none` (finite XOF prefix exhausted) is reported as `Fault.fuel`, so `runLine` retries with a longer prefix. -/
+def specOp (O : Oracles) (op : String) (a : Array String) : Option (M String) :=
+  let arg := fun (i : Nat) => a[i]!
+  let P? : Option Spec.Params := match arg 0 with
+    | "44" => some Spec.mlDsa44 | "65" => some Spec.mlDsa65 | "87" => some Spec.mlDsa87 | _ => none
+  let nG := 1680 * O.fuelScale
+  match P? with
+  | none => none
+  | some P =>
+    match op with
+    | "spec_keygen" => some (
+        match Spec.keyGenInternal P O.h O.g nG (1088 * O.fuelScale) (parseHex (arg 1)) with
+        | some (pk, sk) => pure s!"{toHex pk} {toHex sk}"
+        | none => throw (Fault.fuel "spec_keygen"))
+    | "spec_sign" => some (
+        let d := Spec.skDecode (Spec.bitlen (2 * P.eta)) P.eta P.k P.l (parseHex (arg 1))
+        if !(Spec.allInRange P.eta P.eta d.2.2.2.1 && Spec.allInRange P.eta P.eta d.2.2.2.2.1) then pure "err:sk" else
+        match Spec.signInternal P O.h O.g nG (8 + 1360 * O.fuelScale) (65535 / P.l) d.1 d.2.1 d.2.2.1 d.2.2.2.1 d.2.2.2.2.1 d.2.2.2.2.2
+            (parseHex (arg 2)) (parseHex (arg 3)) with
+        | some sig => pure (toHex sig)
+        | none => throw (Fault.fuel "spec_sign"))
+    | "spec_verify" => some (
+        match Spec.verifyInternal P O.h O.g nG (8 + 1360 * O.fuelScale) (parseHex (arg 1)) (parseHex (arg 2)) (parseHex (arg 3)) with
+        | some b => pure (toString b)
+        | none => throw (Fault.fuel "spec_verify"))
+    | _ => none
+
 /-- per-parameter-set operations -/
 def setOp (m : Mode) (O : Oracles) (op : String) (p : ParamSet) (a : Array String) : M String :=
   let arg := fun (i : Nat) => a[i]!
@@ -339,6 +369,9 @@ def runOp (m : Mode) (O : Oracles) (t : Array String) : M String :=
       let (oid, phm) := hashMessage O (parseHex (arg 1)) (phOf (arg 0))
       pure s!"{toHex oid} {toHex phm}"
   | _ =>
+    match specOp O op a with
+    | some r => r
+    | none =>
     match paramSet (arg 0) with
     | some p => setOp m O op p (a.extract 1 a.size)
     | none => throw (Fault.expect s!"unknown op {op}")
